@@ -150,7 +150,36 @@ fn halfway(x: f64, rng: &mut Rng) -> String {
             nudged = true;
         }
     }
-    format!("{}e{}", s, dec_exp - if nudged { 1 } else { 0 })
+    let e = dec_exp - if nudged { 1 } else { 0 };
+    respell(&s, e, rng)
+}
+
+/// the value `digits * 10^e` in one of the spellings the number grammar allows: exponent form, plain digits,
+/// decimal point moved inside, zero fractions, padding zeros with a compensating exponent. The rounding
+/// decision must not depend on the spelling (a parser that drops digits must remember that it did)
+fn respell(digits: &str, e: i64, rng: &mut Rng) -> String {
+    let n = digits.len() as i64;
+    let zeros = |k: usize| "0".repeat(k);
+    match rng.below(8) {
+        0 | 1 => format!("{digits}e{e}"),
+        2 if e >= 0 && e <= 40 => format!("{digits}{}", zeros(e as usize)),
+        3 if e >= 0 && e <= 40 => format!("{digits}{}.{}", zeros(e as usize), zeros(1 + rng.below(3))),
+        4 if e >= 0 && e <= 40 => format!("{digits}{}.{}e{}", zeros(e as usize), zeros(1 + rng.below(20)), *rng.pick(&["0", "+0", "-0", "00"])),
+        2 | 3 | 4 if e < 0 && -e < n => {
+            let k = (n + e) as usize;
+            format!("{}.{}{}", &digits[..k], &digits[k..], zeros(rng.below(3)))
+        }
+        2 | 3 | 4 if e < 0 && -e - n < 30 => format!("0.{}{digits}", zeros((-e - n) as usize)),
+        5 => format!("{digits}.{}e{e}", zeros(1 + rng.below(25))),
+        6 => {
+            let k = 1 + rng.below(4);
+            format!("{digits}{}e{}", zeros(k), e - k as i64)
+        }
+        _ => {
+            let k = 1 + rng.below((n as usize).min(30).max(2) - 1);
+            if (k as i64) < n { format!("{}.{}E{:+}", &digits[..k], &digits[k..], e + n - k as i64) } else { format!("{digits}e{e}") }
+        }
+    }
 }
 
 pub fn literals(rng: &mut Rng, thorough: bool) -> Vec<String> {
@@ -194,7 +223,9 @@ pub fn literals(rng: &mut Rng, thorough: bool) -> Vec<String> {
     // halfway and near-halfway cases around random and boundary doubles
     let nh = if thorough { 4000 } else { 400 };
     for i in 0..nh {
-        let x = match i % 5 {
+        let x = match i % 7 {
+            // integers of 20 to 30 digits: the digits a 19-digit reader drops decide the rounding
+            5 | 6 => f64::from_bits(((1023 + 63 + rng.below(36) as u64) << 52) | (rng.next() & 0x000f_ffff_ffff_ffff)),
             0 => f64::from_bits(rng.next() & 0x7fef_ffff_ffff_ffff),
             1 => f64::from_bits((rng.below(2046) as u64 + 1) << 52),
             2 => f64::from_bits(rng.next() & 0x000f_ffff_ffff_ffff),
